@@ -247,6 +247,7 @@ def register(R):
             want = z3.If(is_str, B(cls == 'UploadFilenameInputManager'),
                          z3.If(seekable, B(cls == 'UploadSeekableInputManager'), B(cls == 'UploadNonSeekableInputManager')))
             out['input_manager_matches_source_kind'] = (want, ['C01', 'C11'])
+            out['input_manager_gets_the_transfers_bandwidth_limiter'] = (B(c.new.obj(mgr).fields.get('_bandwidth_limiter') is c.a_bandwidth_limiter), ['C13'])
             # C14: multipart exactly when size >= threshold.  size = provided / discovered size, or for a
             # non-seekable stream of unknown length the bytes from the call position to EOF (full reads)
             thr = c.old.f(c.a_config, 'multipart_threshold')
@@ -277,7 +278,7 @@ def register(R):
         return out
 
     R.contract(
-        f'{UST}._submit', props=['C14', 'C01', 'C04', 'C11'],
+        f'{UST}._submit', props=['C14', 'C01', 'C04', 'C11', 'C13'],
         params=dict(SUBMIT_PARAMS, bandwidth_limiter=OptT(ObjT('s3transfer.bandwidth:BandwidthLimiter'))),
         checks=up_submit_checks,
         raises={'Exception': lambda c: {}},
@@ -336,6 +337,7 @@ def register(R):
             out['body_is_a_window_reader'] = (B(okb), ['C01'])
             if okb:
                 out['body_starts_with_progress_reporting_off'] = (B(bh.fields.get('_callbacks_enabled') is False), ['C09'])
+                out['body_is_throttled_iff_a_limiter_is_configured'] = (limiter_clause(st1, c.a_upload_input_manager, bh.fields['_fileobj']), ['C13'])
                 start, size = to_int_term(bh.fields['_start_byte']), to_int_term(bh.fields['_size'])
                 total = size_val(st1, c.a_transfer_future)
                 fo = fo_of(st1, c.a_transfer_future)
@@ -385,7 +387,7 @@ def register(R):
     R.contracts[f'{UST}._submit_upload_request'].checks = single_checks
     R.contracts[f'{UST}._submit_upload_request'].param_alternatives = MGR_ALTS
     R.contracts[f'{UST}._submit_upload_request'].raises = {'Exception': lambda c: {}}
-    R.contracts[f'{UST}._submit_upload_request'].props = ('C01', 'C04', 'C09', 'C10', 'C11', 'C15')
+    R.contracts[f'{UST}._submit_upload_request'].props = ('C01', 'C04', 'C09', 'C10', 'C11', 'C13', 'C15')
 
     # ---------------------------------------------------------------- multipart upload
     FUTS = ListOfT(ExtT('future'), name='part_futures')
@@ -440,6 +442,7 @@ def register(R):
             cbs = cbs.val if isinstance(cbs, Opt) else cbs
             citems = st1.obj(cbs).items if isinstance(cbs, Ref) and st1.obj(cbs).kind == 'list' else None
             aggs = [x for x in (citems or []) if isinstance(x, Ref) and st1.obj(x).kind == 'obj' and st1.obj(x).cls.name == 'AggregatedProgressCallback']
+            out['part_body_is_throttled_iff_a_limiter_is_configured'] = (limiter_clause(st1, outer1['upload_input_manager'], bh.fields['_fileobj']), ['C13'])
             # reporting starts switched off: botocore's request-created handlers switch it on when the body is sent
             out['part_body_starts_with_progress_reporting_off'] = (B(bh.fields.get('_callbacks_enabled') is False), ['C09'])
             out['part_body_has_its_own_progress_aggregator'] = (B(
@@ -474,6 +477,25 @@ def register(R):
                         to_int_term(d.hi) - to_int_term(d.lo) <= z3.If(cc >= th, cc, th), ['C11'])
             return out
         return chk
+
+    def limiter_clause(st, mgr_ref, body_fileobj):
+        """C13: an upload body is read through the manager's shared leaky bucket exactly when a limiter is configured
+        (created with limiting off: botocore's handlers switch it on while the body is being sent)."""
+        lim = st.obj(mgr_ref).fields.get('_bandwidth_limiter')
+        h = st.obj(body_fileobj) if isinstance(body_fileobj, Ref) and st.obj(body_fileobj).kind == 'obj' else None
+        wrapped = h is not None and h.cls.name == 'BandwidthLimitedStream'
+        okw = False
+        if wrapped:
+            lv = lim.val if isinstance(lim, Opt) else lim
+            inner = h.fields.get('_fileobj')
+            okw = isinstance(lv, Ref) and h.fields.get('_leaky_bucket') is st.obj(lv).fields.get('_leaky_bucket') \
+                and h.fields.get('_transfer_coordinator') is st.obj(mgr_ref).fields.get('_transfer_coordinator') \
+                and h.fields.get('_bandwidth_limiting_enabled') is False \
+                and isinstance(inner, Ref) and st.obj(inner).kind == 'obj' and st.obj(inner).cls.name == 'InterruptReader'
+        direct = h is not None and h.cls.name == 'InterruptReader'
+        if isinstance(lim, Opt):
+            return z3.If(lim.is_none, B(bool(direct)), B(bool(okw)))
+        return B(bool(direct)) if lim is None else B(bool(okw))
 
     def reader_of(st, evs, v):
         """InterruptReader heap object under a body's _fileobj (possibly wrapped by the bandwidth limiter)."""
@@ -622,7 +644,7 @@ def register(R):
     cmu.checks = multi_checks
     cmu.param_alternatives = MGR_ALTS
     cmu.raises = {'Exception': lambda c: {}}
-    cmu.props = ('C01', 'C04', 'C05', 'C09', 'C10', 'C11', 'C14', 'C15')
+    cmu.props = ('C01', 'C04', 'C05', 'C09', 'C10', 'C11', 'C13', 'C14', 'C15')
 
     def multi_setup(eng, st, args, self_val):
         ns_setup(eng, st, args, self_val)
@@ -1127,6 +1149,8 @@ def register(R):
         """The ghost of the current attempt's body exists from the moment the iterator is built."""
         st = l.st
         sb = st.env['streaming_body']
+        if isinstance(sb, Ref) and st.obj(sb).kind == 'obj' and st.obj(sb).cls.name == 'BandwidthLimitedStream':
+            sb = st.obj(sb).fields['_fileobj']      # the limiter's wrapper around the response body reader
         stream = st.obj(sb).fields['_stream'] if isinstance(sb, Ref) and st.obj(sb).kind == 'obj' else None
         if isinstance(stream, Opaque):
             body_state(st, stream)
@@ -1273,6 +1297,20 @@ def register(R):
                 z3.Or(stopped_by_done, to_int_term(c.new.st.ghost['reported']) == g['len']) if g is not None else B(False), ['C09']),
         }
         out.update(budget_clause(c, c.a_max_attempts, ['C03']))
+        # C13: with a bandwidth limiter the body is read through the manager's shared leaky bucket (limiting on, tied to this
+        # transfer's coordinator so a cancelled transfer stops waiting); without one it is read directly
+        ch = c.new.st.env.get('chunks')
+        if isinstance(ch, Ref) and c.new.obj(ch).kind == 'obj':
+            body = c.new.obj(ch).fields.get('_body')
+            bh = c.new.obj(body) if isinstance(body, Ref) and c.new.obj(body).kind == 'obj' else None
+            lim = c.a_bandwidth_limiter
+            if lim is None:
+                out['unlimited_download_reads_the_response_body_directly'] = (B(bh is not None and bh.cls.name == 'StreamReaderProgress'), ['C13', 'C02'])
+            else:
+                okl = bh is not None and bh.cls.name == 'BandwidthLimitedStream' and bh.fields.get('_leaky_bucket') is c.new.obj(lim).fields.get('_leaky_bucket') \
+                    and bh.fields.get('_transfer_coordinator') is c.oldf('_transfer_coordinator') and bh.fields.get('_bandwidth_limiting_enabled') is True \
+                    and isinstance(bh.fields.get('_fileobj'), Ref) and c.new.obj(bh.fields['_fileobj']).cls.name == 'StreamReaderProgress'
+                out['limited_download_reads_through_the_shared_leaky_bucket'] = (B(bool(okl)), ['C13'])
         return out
 
     def got_raises_retries(c):
@@ -1283,11 +1321,13 @@ def register(R):
             **budget_clause(c, c.a_max_attempts, ['C03'])}
 
     R.contract(
-        f'{GOT}._main', props=['C02', 'C03', 'C09', 'C16', 'C10', 'C15'],
+        f'{GOT}._main', props=['C02', 'C03', 'C09', 'C16', 'C10', 'C13', 'C15'],
         params=dict(client=ExtT('client'), bucket=ExtT('str'), key=ExtT('str'), fileobj=ExtT('destfile'), extra_args=EXTRA,
                     callbacks=ListOfT(ExtT('progress_cb')), max_attempts=Int, download_output_manager=Any, io_chunksize=Int,
                     start_index=Int, bandwidth_limiter=Const(None)),
-        param_alternatives=dict(MGR_DL, self=[('queued', ObjT(GOT)), ('immediate', ObjT(f'{DL}:ImmediatelyWriteIOGetObjectTask'))]),
+        param_alternatives=dict(MGR_DL, self=[('queued', ObjT(GOT)), ('immediate', ObjT(f'{DL}:ImmediatelyWriteIOGetObjectTask'))],
+                                bandwidth_limiter=[('unlimited', Const(None)), ('limited', ObjT('s3transfer.bandwidth:BandwidthLimiter'))]),
+        inline_callees=['s3transfer.bandwidth:BandwidthLimitedStream.read'],
         setup=got_setup, checks=got_checks,
         raises={'s3transfer.exceptions:RetriesExceededError': got_raises_retries, 'Exception': lambda c: {}},
         raise_when={'Exception': lambda c: None},
@@ -1422,6 +1462,7 @@ def register(R):
         out['attempt_budget_and_chunk_size_from_config'] = (B(
             mk.get('max_attempts') is c.old.f(c.a_config, 'num_download_attempts') and mk.get('io_chunksize') is c.old.f(c.a_config, 'io_chunksize')
             and 'start_index' not in mk and mk.get('download_output_manager') is c.a_download_output_manager), ['C03', 'C02', 'C11'])
+        out['get_object_task_gets_the_transfers_bandwidth_limiter'] = (B(mk.get('bandwidth_limiter') is c.a_bandwidth_limiter), ['C13'])
         tag = sub[0].extra['env']['tag']
         streaming = mgr_cls in ('DownloadNonSeekableOutputManager', 'DownloadSpecialFilenameOutputManager')
         out['stream_destinations_use_the_in_memory_download_tag'] = (z3.Not(is_none(tag)) == B(streaming), ['C11', 'C10'])
@@ -1437,7 +1478,7 @@ def register(R):
     cds = R.contracts[f'{DST}._submit_download_request']
     cds.checks, cds.raises = dl_single_checks, {'Exception': lambda c: {}}
     cds.param_alternatives = MGR_DL
-    cds.props = ('C02', 'C03', 'C04', 'C06', 'C08', 'C10', 'C11', 'C15', 'C05')
+    cds.props = ('C02', 'C03', 'C04', 'C06', 'C08', 'C10', 'C11', 'C13', 'C15', 'C05')
     cds.setup = lambda eng, st, args, self_val: st.assume(z3.Not(st.obj(st.obj(args['transfer_future']).fields['_meta']).fields['_size'].is_none))
 
     # ---- ranged download
@@ -1480,6 +1521,7 @@ def register(R):
             and mk.get('max_attempts') is st1.obj(env['config']).fields['num_download_attempts']
             and mk.get('io_chunksize') is st1.obj(env['config']).fields['io_chunksize']
             and mk.get('download_output_manager') is env['download_output_manager']), ['C02', 'C03', 'C11'])
+        out['get_object_task_gets_the_transfers_bandwidth_limiter'] = (B(mk.get('bandwidth_limiter') is env['bandwidth_limiter']), ['C13'])
         tag = sub[0].extra['env']['tag']
         mgr_cls = st1.obj(env['download_output_manager']).cls.name
         out['stream_destinations_use_the_in_memory_download_tag'] = (
@@ -1529,7 +1571,7 @@ def register(R):
     cdr = R.contracts[f'{DST}._submit_ranged_download_request']
     cdr.checks, cdr.raises = dl_ranged_checks, {'Exception': lambda c: {}}
     cdr.param_alternatives = MGR_DL
-    cdr.props = ('C02', 'C03', 'C04', 'C06', 'C10', 'C11', 'C14', 'C15', 'C05')
+    cdr.props = ('C02', 'C03', 'C04', 'C06', 'C10', 'C11', 'C13', 'C14', 'C15', 'C05')
     cdr.setup = dl_ranged_setup
     cdr.loops = {0: LoopSpec(invariant=lambda l: {}, iteration_checks=dl_ranged_iteration)}
 
